@@ -14,7 +14,8 @@ PTS = "PTS"  # placeholder: post_training_scale taken from a first call at run t
 ARR_COL = "ARR_COL"    # placeholder: per-row array alpha of shape (6, 1) (non-trailing axis of the (6, 4) probes)
 ARR_ROW = "ARR_ROW"    # placeholder: per-column array alpha of shape (1, 4)
 NP_ALPHA = "NP_FLOAT32_2"   # placeholder: alpha = numpy.float32(2.0) (an option value computed with numpy, e.g. np.mean(np.abs(w)))
-PLACEHOLDERS = (PTS, ARR_COL, ARR_ROW, NP_ALPHA)
+PTS_X = "PTS_X"   # placeholder: a frozen post-training scale that is *not* a power of two (0.75 x the scale of a first call)
+PLACEHOLDERS = (PTS, PTS_X, ARR_COL, ARR_ROW, NP_ALPHA)
 
 DOMAIN = {
     "quantized_bits": {
@@ -22,7 +23,7 @@ DOMAIN = {
         "alpha": [2.0, 2.0 ** -10, "auto", "auto_po2", NP_ALPHA], "use_stochastic_rounding": [True],
         "scale_axis": [0], "qnoise_factor": [0.5, 0.0], "var_name": ["vq"], "use_ste": [False],
         "use_variables": [True], "elements_per_scale": [2], "min_po2_exponent": [-2, 0],
-        "max_po2_exponent": [1, 0], "post_training_scale": [PTS],
+        "max_po2_exponent": [1, 0], "post_training_scale": [PTS, PTS_X],
     },
     "quantized_linear": {
         "bits": [4, 2], "integer": [2, 1], "symmetric": [0], "keep_negative": [False],
